@@ -1,5 +1,6 @@
 /- The mutual induction behind C01: running the decoder over the text of a legal forest. -/
 import Gedcom.Lemmas.Machine
+import Gedcom.Lemmas.Trim
 namespace Gedcom.Dec
 open Gedcom
 
@@ -201,5 +202,13 @@ theorem runF (o : Opts) (f : List Node) (lvl : Nat) (s : St) (n : Nat) (rest : S
     · rw [hclose2, hclose1, attach_setFam, attach_attach, setFam_setFam]
       simp
 end
+
+/-- a trailing blank line (the text ends with a line feed) leaves the last node as it was,
+    also when blank lines continue values -/
+theorem trimTop_appendTop_LF (s : St) (h : TopOK s) : trimTop (appendTop [LF] s) = s := by
+  rcases s with ⟨r, _ | ⟨f, fs⟩, sf⟩
+  · rfl
+  · have := trimSpace_append_LF f.hdr.value (h f fs rfl)
+    simp [appendTop, trimTop, this]
 
 end Gedcom.Dec
